@@ -59,6 +59,7 @@ type lfRig struct {
 	tmp           string
 	busyPort      int
 	busy          net.Listener
+	startedBefore bool           // casket.Started() before the current attempt
 	cluster       bool           // the environment names the storage plugin simcluster
 	quic          bool           // the process runs with -quic: every server also opens a UDP socket on its port
 	busyUDP       net.PacketConn // a UDP port somebody else holds while the TCP port of the same number is free
@@ -776,6 +777,7 @@ func (r *lfRig) attempt(a lfAttempt) {
 	before := listeningInodes()
 	r.udpBefore = udpInodes()
 	hooksBefore := hookNames()
+	r.startedBefore = casket.Started()
 	instsBefore := len(casket.Instances())
 	c.Logf("attempt %s %s fail=%q", a.method, cfg.label, cfg.fail)
 	var err error
@@ -906,6 +908,10 @@ func (r *lfRig) residue(a lfAttempt, before, hooksBefore []string, instsBefore i
 		if in := r.inst.Casketfile(); in == nil || string(in.Body()) != r.running.text {
 			c.Violate("C08/running-instance-input-changed", a.method+"/"+kind, "%s (%s): the running instance now reports another Casketfile than the one it was loaded from", a.method, kind)
 		}
+	}
+	if st := casket.Started(); st != r.startedBefore {
+		// (what the next load does depends on it: whether an operator is taken to be present)
+		c.Violate("C08/process-state-changed", a.method+"/"+kind, "%s (%s): casket.Started() was %v before the attempt and is %v after it", a.method, kind, r.startedBefore, st)
 	}
 	if n := len(casket.Instances()); n != instsBefore {
 		c.Violate("C08/instance-list-changed", a.method+"/"+kind, "%s (%s): instance list length %d -> %d", a.method, kind, instsBefore, n)
